@@ -14,7 +14,6 @@ package main
 import (
 	"fmt"
 	"math"
-	"math/cmplx"
 	"reflect"
 	"strconv"
 	"unsafe"
@@ -38,8 +37,8 @@ func init() {
 }
 
 // toF64: the type-generic element -> float64 conversion (Go's conversion; complex: the real part).
-// bulk = as the arms of convToFloat64s compute it (complex: any NaN component -> NaN, any infinite
-// component -> +Inf; float32: non-finite values special-cased to the same values).
+// bulk = as the float32 arm of convToFloat64s computes it (non-finite values special-cased to the same
+// values, so there is nothing to distinguish); the arms of the other types are the per-element conversion itself.
 func toF64(args []interface{}, bulk bool) (interface{}, error) {
 	if len(args) != 1 {
 		return nil, fmt.Errorf("tof64: bad arity")
@@ -72,32 +71,16 @@ func toF64(args []interface{}, bulk bool) (interface{}, error) {
 	case float64:
 		return x, nil
 	case complex64:
-		if bulk {
-			switch {
-			case cmplx.IsNaN(complex128(x)):
-				return math.NaN(), nil
-			case cmplx.IsInf(complex128(x)):
-				return math.Inf(1), nil
-			}
-		}
 		return float64(real(x)), nil
 	case complex128:
-		if bulk {
-			switch {
-			case cmplx.IsNaN(x):
-				return math.NaN(), nil
-			case cmplx.IsInf(x):
-				return math.Inf(1), nil
-			}
-		}
 		return real(x), nil
 	}
 	return nil, fmt.Errorf("tof64 on unsupported type %T", args[0])
 }
 
 // fromF64: float64 -> T. mirror=false: Go's own conversion (complex: complex(T'(v), 0)).
-// mirror=true: as the arm of convFromFloat64s computes it (integers: NaN/Inf -> 0; complex: NaN ->
-// NaN+NaNi, +-Inf -> +Inf+Infi).
+// mirror=true: as the arm of convFromFloat64s computes it (integers: NaN/Inf -> 0; the complex arms are
+// the type-generic conversion).
 func fromF64(dt string, args []interface{}, mirror bool) (interface{}, error) {
 	if len(args) != 1 {
 		return nil, fmt.Errorf("cvt: bad arity")
@@ -148,24 +131,8 @@ func fromF64(dt string, args []interface{}, mirror bool) (interface{}, error) {
 	case "f64":
 		return v, nil
 	case "c64":
-		if mirror {
-			switch {
-			case math.IsNaN(v):
-				return complex64(cmplx.NaN()), nil
-			case math.IsInf(v, 0):
-				return complex64(cmplx.Inf()), nil
-			}
-		}
 		return complex(float32(v), float32(0)), nil
 	case "c128":
-		if mirror {
-			switch {
-			case math.IsNaN(v):
-				return cmplx.NaN(), nil
-			case math.IsInf(v, 0):
-				return cmplx.Inf(), nil
-			}
-		}
 		return complex(v, float64(0)), nil
 	}
 	return nil, fmt.Errorf("cvt: no conversion float64 -> %s", dt)
